@@ -199,7 +199,8 @@ _CAFF = {'c-affinity-chains': lambda run: __import__('bounded.c_sweeps', fromlis
 _WPS_LAYOUT = ['dd_dtw.c::dtw_wps_parts', 'dd_dtw.c::dtw_settings_wps_length', 'dd_dtw.c::dtw_settings_wps_width', 'dd_dtw.c::dtw_wps_loc',
                'dd_dtw.c::dtw_wps_loc_columns']
 _WPS_VALUE = ['dd_dtw.c::dtw_wps_negativize_value', 'dd_dtw.c::dtw_wps_positivize_value', 'dd_dtw.c::dtw_wps_max']
-_TRACEBACK = ['dd_dtw.c::dtw_best_path', 'dd_dtw.c::dtw_best_path_isclose', 'dd_dtw.c::dtw_best_path_customstart']
+_TRACEBACK = ['dd_dtw.c::dtw_best_path', 'dd_dtw.c::dtw_best_path_isclose', 'dd_dtw.c::dtw_best_path_customstart',
+              'dd_dtw.c::dtw_best_path_affinity']
 _ALL_C_PROVED = (PROPS['C09']['contracts'][:10] + PROPS['C06']['contracts'][6:] + PROPS['C07']['contracts'] + PROPS['C02']['contracts']
                  + _WPS_LAYOUT + _WPS_VALUE + _TRACEBACK)
 
@@ -210,9 +211,9 @@ PROPS['C08'] = dict(
             'RowAllInf', 'RowLeadInf', 'FoldMinIsMin'],
     bounded=dict(_CML, **dict(_CAFF, **_CDBA)),
     level='proof',
-    level_text='For 40 exported C routines (Euclidean bounds, LB_Keogh, block/length helpers, the six serial and six OpenMP '
+    level_text='For 41 exported C routines (Euclidean bounds, LB_Keogh, block/length helpers, the six serial and six OpenMP '
                'distance-matrix routines with their prepare step, the four DTW kernels, and the compact-layout helpers dtw_wps_parts, '
-               'dtw_settings_wps_length/width, dtw_wps_loc, dtw_wps_loc_columns, dtw_wps_max, dtw_wps_negativize_value/positivize_value, and the tracebacks dtw_best_path, dtw_best_path_isclose, dtw_best_path_customstart (start cell in the band) -- for every content of the compact matrix) every array access, every signed idx_t '
+               'dtw_settings_wps_length/width, dtw_wps_loc, dtw_wps_loc_columns, dtw_wps_max, dtw_wps_negativize_value/positivize_value, and the tracebacks dtw_best_path, dtw_best_path_isclose, dtw_best_path_customstart, dtw_best_path_affinity (start cell in the band) -- for every content of the compact matrix) every array access, every signed idx_t '
                'operation, every division, every assert() and every pointer dereference is a discharged obligation under the '
                'documented buffer sizes, for all lengths/windows/psi/blocks. The remaining exported routines (cost matrix in the '
                'compact layout, expansion, slices, best path, warping path) are covered by a *bounded* sanitizer sweep only.',
@@ -300,7 +301,7 @@ PROPS['C05'] = dict(
                  'C tracebacks dtw_best_path, _isclose, _customstart (start cell in the band): the value-independent part is proved for every content of the compact matrix (all reads '
                  'inside the buffer of the advertised size, all writes inside the l1+l2 index arrays, emitted pairs are series indices, '
                  'non-increasing in both coordinates, at most l1+l2 of them, wps unchanged); that each step goes to a least candidate and '
-                 'the cost clause: bounded only (sanitizer chains + native sweep); dtw_best_path_affinity / _prob: bounded only', 'dtw_ndim.warping_path, custom start cell (row / col): bounded only'],
+                 'the cost clause: bounded only (sanitizer chains + native sweep); dtw_best_path_prob: bounded only', 'dtw_ndim.warping_path, custom start cell (row / col): bounded only'],
     technique='sidecar contracts on the real dtw.best_path and dtw.warping_path (modular: callee contracts at the two calls), VCs '
               'discharged by z3 / cvc5; symbolic lists of index pairs; bounded sweep of all path routines of both engines',
 )
@@ -593,8 +594,9 @@ PROPS['C11'] = dict(
 )
 
 PROPS['C18'] = dict(
-    modules=['contracts.affinity_py', 'contracts.wps_c'],
-    contracts=['dtw.warping_paths_affinity', 'dd_dtw.c::dtw_wps_loc', 'dd_dtw.c::dtw_wps_loc_columns'] + _WPS_VALUE,
+    modules=['contracts.affinity_py', 'contracts.wps_c', 'contracts.bestpath_c'],
+    contracts=['dtw.warping_paths_affinity', 'dd_dtw.c::dtw_wps_loc', 'dd_dtw.c::dtw_wps_loc_columns'] + _WPS_VALUE
+    + ['dd_dtw.c::dtw_best_path_affinity'],
     lemmas=[],
     bounded=dict(_CAFF, **{'affinity-native-sweep': lambda run: _native_sweep(
         'affinity_native.py',
@@ -610,8 +612,10 @@ PROPS['C18'] = dict(
     level_note='C helpers of the match search under contract (unbounded): dtw_wps_max returns the location / row / column of the first '
                'strictly largest positive stored cell of the compact matrix (0 when none) and reads only stored cells; '
                'dtw_wps_negativize_value / positivize_value flip the sign of exactly the addressed finite cell and change nothing else; '
-               'dtw_wps_loc(_columns) address the compact layout. The C affinity kernels, the range routines dtw_wps_negativize / '
-               'positivize, dtw_best_path_affinity and the kbest_matches traceback are bounded only.',
+               'dtw_wps_loc(_columns) address the compact layout; dtw_best_path_affinity (the traceback of a match from a start cell in the band) '
+               'stays inside the buffers for every matrix content and emits series indices, non-increasing in both coordinates. The C '
+               'affinity kernels, the range routines dtw_wps_negativize / positivize, that the traceback follows the largest predecessor, '
+               'and the kbest_matches histories are bounded only.',
     trusted_base=[PY_A1, A3_NUMPY, A7],
     assumptions=[PY_A1, A3_NUMPY, A7],
     not_decided=['end-of-series psi selection of the returned value', 'C engine unbounded', 'kbest_matches histories'],
